@@ -400,6 +400,18 @@ func (n *Assignment) String() string {
 		s.WriteString(" /= ")
 	case AssignmentModulo:
 		s.WriteString(" %= ")
+	case AssignmentAnd:
+		s.WriteString(" &= ")
+	case AssignmentOr:
+		s.WriteString(" |= ")
+	case AssignmentXor:
+		s.WriteString(" ^= ")
+	case AssignmentAndNot:
+		s.WriteString(" &^= ")
+	case AssignmentLeftShift:
+		s.WriteString(" <<= ")
+	case AssignmentRightShift:
+		s.WriteString(" >>= ")
 	case AssignmentIncrement:
 		s.WriteString("++")
 	case AssignmentDecrement:
@@ -871,11 +883,18 @@ func (n *FuncType) String() string {
 		if i > 0 {
 			s += ", "
 		}
+		if n.IsVariadic && i == len(n.Parameters)-1 && param.Type != nil {
+			if param.Ident != nil {
+				s += param.Ident.Name + " "
+			}
+			s += "..." + param.Type.String()
+			continue
+		}
 		s += param.String()
 	}
 	s += ")"
 	if len(n.Result) > 0 {
-		if n.Result[0].Ident == nil {
+		if len(n.Result) == 1 && n.Result[0].Ident == nil {
 			s += " " + n.Result[0].Type.String()
 		} else {
 			s += " ("
@@ -1564,7 +1583,7 @@ func (n *Var) String() string {
 	s.WriteString("var ")
 	for i, ident := range n.Lhs {
 		if i > 0 {
-			s.WriteString(" ")
+			s.WriteString(", ")
 		}
 		s.WriteString(ident.Name)
 	}
@@ -1575,7 +1594,7 @@ func (n *Var) String() string {
 		s.WriteString(" = ")
 		for i, value := range n.Rhs {
 			if i > 0 {
-				s.WriteString(" ")
+				s.WriteString(", ")
 			}
 			s.WriteString(value.String())
 		}
